@@ -5,6 +5,8 @@
 package ua
 
 import (
+	"reflect"
+
 	"github.com/gopcua/opcua/debug"
 	"github.com/gopcua/opcua/id"
 )
@@ -58,7 +60,17 @@ func (e *ExtensionObject) Decode(b []byte) (int, error) {
 	}
 
 	length := buf.ReadUint32()
-	if length == 0 || length == 0xffffffff || buf.Error() != nil {
+	if length == 0xffffffff || buf.Error() != nil {
+		return buf.Pos(), buf.Error()
+	}
+	if length == 0 {
+		// An empty body is the complete encoding of a registered
+		// type without fields. Decode it as such instead of dropping the value.
+		if e.EncodingMask == ExtensionObjectBinary {
+			if v := eotypes.New(e.TypeID.NodeID); v != nil && isFieldlessStruct(v) {
+				e.Value = v
+			}
+		}
 		return buf.Pos(), buf.Error()
 	}
 
@@ -82,6 +94,12 @@ func (e *ExtensionObject) Decode(b []byte) (int, error) {
 
 	body.ReadStruct(e.Value)
 	return buf.Pos(), body.Error()
+}
+
+// isFieldlessStruct reports whether v points to a struct type without fields.
+func isFieldlessStruct(v interface{}) bool {
+	t := reflect.TypeOf(v)
+	return t.Kind() == reflect.Ptr && t.Elem().Kind() == reflect.Struct && t.Elem().NumField() == 0
 }
 
 func (e *ExtensionObject) Encode() ([]byte, error) {
